@@ -233,17 +233,80 @@ Fixpoint oreg_loop (groupStart : bool) (ts : list otest) : list jev :=
 (* post: calls made after runAllTests returned *)
 Definition jevents_of (ts : list otest) (post : list op) : list jev := oreg_loop true ts ++ map JOp post.
 
-Definition obs := (list (bytes * bytes) * list bytes)%type.   (* (file name, content) in the order the files were opened;
-                                                                 answers of the createFileName calls in call order *)
+Definition obs := (list (bytes * bytes) * list bytes)%type.   (* (file name, content); answers of the createFileName calls in call order *)
+(* every file the output object opened, in the order of the opens (the same name may occur twice), and the answers: no filters *)
 Definition run_with (esc : bytes -> seg) (ts : list otest) (post : list op) : obs :=
   let st := fold_left (jstep esc) (jevents_of ts post) j_init in (rev (j_files st), rev (j_names st)).
 
-Record scenario := { s_tests : list otest; s_post : list op }.
-Definition run (s : scenario) : obs := run_with Esc (s_tests s) (s_post s).
-Definition run_old (s : scenario) : obs := run_with Raw (s_tests s) (s_post s).   (* the code before the repair of D14 *)
+(* ------------------------------------------------------------------------------------------------------------
+   Runs with filters (-g -sg -xg -xsg -n -sn -xn -xsn, TestRegistry::setGroupFilters / setNameFilters) and -ri.
+   TestFilter::match: strict = equality, otherwise SimpleString::contains; invert flips the answer.
+   UtestShell::match(target, filters): no filter = everything matches, otherwise ANY filter of the list matches.
+   UtestShell::shouldRun = match(group, groupFilters) && match(name, nameFilters). *)
+Record tfilter := { f_pat : bytes; f_strict : bool; f_invert : bool }.
+Definition filter_match (f : tfilter) (target : bytes) : bool :=
+  xorb (f_invert f) (if f_strict f then bytes_eqb target (f_pat f) else contains target (f_pat f)).
+Definition filters_match (fs : list tfilter) (target : bytes) : bool :=
+  match fs with [] => true | _ => existsb (fun f => filter_match f target) fs end.
+Definition selected (gf nf : list tfilter) (t : test) : bool := filters_match gf (t_group t) && filters_match nf (t_name t).
+(* TestRegistry::setRunIgnored: runAllTests calls setRunIgnored() on every shell; an IgnoredUtestShell then runs like a plain test *)
+Definition arm (ri : bool) (t : test) : test :=
+  if ri then {| t_group := t_group t; t_name := t_name t; t_file := t_file t; t_line := t_line t; t_ignored := false; t_body := t_body t |} else t.
+
+(* the for loop of runAllTests with testShouldRun: currentGroupStarted / currentGroupEnded are sent for every stretch of the registry,
+   also when none of its tests is selected; a test that is filtered out gets no callback at all (so the outside calls attached to its
+   printCurrentTestStarted are never made) *)
+Fixpoint freg_loop (sel : test -> bool) (groupStart : bool) (ts : list otest) : list jev :=
+  match ts with
+  | [] => []
+  | (ops, t) :: rest =>
+      (if groupStart then [JE (EGroupStart t)] else []) ++
+      (if sel t then map JOp ops ++ map JE (test_events t) else []) ++
+      (if end_of_group t (map snd rest) then JE EGroupEnd :: freg_loop sel true rest else freg_loop sel false rest)
+  end.
+Definition fjevents_of (sel : test -> bool) (ts : list otest) (post : list op) : list jev := freg_loop sel true ts ++ map JOp post.
+
+(* the file system the files are written into: a map name -> content kept in the order of the first open; opening an existing
+   name for writing REPLACES what was there *)
+Definition fs_write (fs : list (bytes * bytes)) (w : bytes * bytes) : list (bytes * bytes) :=
+  if existsb (fun e => bytes_eqb (fst e) (fst w)) fs
+  then map (fun e => if bytes_eqb (fst e) (fst w) then w else e) fs
+  else fs ++ [w].
+Definition fs_of_writes (ws : list (bytes * bytes)) : list (bytes * bytes) := fold_left fs_write ws [].
+Definition fs_lookup (fn : bytes) (fs : list (bytes * bytes)) : option bytes :=
+  match find (fun e => bytes_eqb (fst e) fn) fs with Some e => Some (snd e) | None => None end.
+
+(* every write of a filtered run in the order of the opens, and the answers *)
+Definition writes_with (step : jstate -> jev -> jstate) (sel : test -> bool) (ts : list otest) (post : list op) : obs :=
+  let st := fold_left step (fjevents_of sel ts post) j_init in (rev (j_files st), rev (j_names st)).
+(* what is left at the end: the files that exist and their content *)
+Definition frun_with (step : jstate -> jev -> jstate) (sel : test -> bool) (ts : list otest) (post : list op) : obs :=
+  let w := writes_with step sel ts post in (fs_of_writes (fst w), snd w).
+
+Record scenario := { s_tests : list otest; s_post : list op;
+                     s_ri : bool;                  (* -ri *)
+                     s_gf : list tfilter;          (* group filters *)
+                     s_nf : list tfilter }.        (* name filters *)
+Definition armed (s : scenario) : list otest := map (fun x => (fst x, arm (s_ri s) (snd x))) (s_tests s).
+Definition s_sel (s : scenario) : test -> bool := selected (s_gf s) (s_nf s).
+Definition run_writes (s : scenario) : obs := writes_with (jstep Esc) (s_sel s) (armed s) (s_post s).
+Definition run (s : scenario) : obs := frun_with (jstep Esc) (s_sel s) (armed s) (s_post s).
+Definition run_old (s : scenario) : obs := frun_with (jstep Raw) (s_sel s) (armed s) (s_post s).   (* the code before the repair of D14 *)
+(* a variant that is NOT the code: resetTestGroupResult leaves group_ as it is ("every test start assigns it anyway") *)
+Definition jstep_stale (st : jstate) (x : jev) : jstate :=
+  match x with
+  | JE EGroupEnd =>
+      let st' := junit_step Esc st EGroupEnd in
+      {| j_nodes := j_nodes st'; j_testCount := j_testCount st'; j_failureCount := j_failureCount st'; j_group := j_group st;
+         j_stdout := j_stdout st'; j_files := j_files st'; j_pkg := j_pkg st'; j_names := j_names st' |}
+  | _ => jstep Esc st x
+  end.
+Definition run_stale (s : scenario) : obs := frun_with jstep_stale (s_sel s) (armed s) (s_post s).
 Definition okop (o : op) : bool := match o with OSetPkg p => oktext p | OFileName g => oktext g end.
 Definition okotest (x : otest) : bool := forallb okop (fst x) && oktest (snd x).
-Definition valid (s : scenario) : bool := forallb okotest (s_tests s) && forallb okop (s_post s).
+Definition okfilter (f : tfilter) : bool := oktext (f_pat f).
+Definition valid (s : scenario) : bool :=
+  forallb okotest (s_tests s) && forallb okop (s_post s) && forallb okfilter (s_gf s) && forallb okfilter (s_nf s).
 
 (* property-level reading: maximal runs of consecutive tests with the same group name, outside calls kept with their test *)
 Fixpoint osegments (ts : list otest) : list (list otest) :=
@@ -536,6 +599,9 @@ Definition expected_filename (pkg group : bytes) : bytes :=
   map (fun c => if existsb (N.eqb c) junit_forbidden then 95 else c)
       (lit_cpputest_ ++ (match pkg with [] => [] | _ => pkg ++ [95] end) ++ group) ++ lit_dotxml.
 
+(* the package after a list of outside calls *)
+Fixpoint ops_pkg (pkg : bytes) (ops : list op) : bytes :=
+  match ops with [] => pkg | OSetPkg p :: r => ops_pkg p r | OFileName _ :: r => ops_pkg pkg r end.
 (* the package at a time = the argument of the latest setPackageName before that time (empty if none).  ops_expect walks
    the outside calls: every createFileName answer must be the name built from the package of that moment; it returns the
    package afterwards and the answers not yet consumed. *)
@@ -573,7 +639,51 @@ Fixpoint spec_groups (pkg : bytes) (gs : list (list otest)) (post : list op) (pr
       | [] => false
       end
   end.
-Definition spec (s : scenario) (o : obs) : bool := spec_groups [] (osegments (s_tests s)) (s_post s) [] (fst o) (snd o).
+(* (spec_groups reads the list of writes of a run without filters: one write per stretch, in order.  It is kept for the theorem about
+   the writes; the oracle below reads what is left in the file system at the end.) *)
+
+(* The property over the files that exist at the end.  A stretch = maximal run of consecutive registered tests with the same group
+   name (osegments of all registered tests); its group "ran" when at least one of its tests is selected.  gs = the stretches reduced
+   to their selected tests (a fully filtered stretch is the empty list).  For every group that ran the file named after the package
+   in force at its end and the group must, at the END of the run, hold that group's report: true counts, one test case per selected
+   test in run order.  Not demanded (claims): the name is also the name of a LATER stretch -- a later group that ran and maps to the same
+   file name (the same group name in two stretches is outside the property's quantifier; "a/b" and "a_b" share a name by the
+   property's own naming rule), or a later fully filtered stretch when the group that ran has the empty name (the code writes the
+   empty suite of a fully filtered stretch under the name built from the empty group name, cpputest_[package_].xml: the oracle is
+   indifferent to that file). *)
+Fixpoint later_claims (fn pkg : bytes) (gs : list (list otest)) : bool :=
+  match gs with
+  | [] => false
+  | og :: gs' =>
+      let pkg' := ops_pkg pkg (flat_map fst og) in
+      bytes_eqb (expected_filename pkg' (group_name (map snd og))) fn || later_claims fn pkg' gs'
+  end.
+Fixpoint spec_fgroups (pkg : bytes) (gs : list (list otest)) (post : list op) (printed : bytes)
+                      (files : list (bytes * bytes)) (names : list bytes) : bool :=
+  match gs with
+  | [] => match ops_expect pkg post names with Some (_, []) => true | _ => false end
+  | og :: gs' =>
+      match ops_expect pkg (flat_map fst og) names with
+      | Some (pkg', names') =>
+          let g := map snd og in
+          let printed' := printed ++ tests_printed g in
+          match g with
+          | [] => true           (* no test of the stretch was selected: nothing is demanded, whatever was written *)
+          | _ =>
+              let fn := expected_filename pkg' (group_name g) in
+              later_claims fn pkg' gs'
+              || match fs_lookup fn files with
+                 | Some content => match xml_parse content with Some t => suite_ok g printed' (tests_printed g) t | None => false end
+                 | None => false
+                 end
+          end
+          && spec_fgroups pkg' gs' post printed' files names'
+      | None => false
+      end
+  end.
+(* the stretches of the registry, each reduced to its selected tests (as armed by -ri) *)
+Definition sel_segments (s : scenario) : list (list otest) := map (filter (fun x => s_sel s (snd x))) (osegments (armed s)).
+Definition spec (s : scenario) (o : obs) : bool := spec_fgroups [] (sel_segments s) (s_post s) [] (fst o) (snd o).
 
 (* acceptance only (used to compare the parser with an independent one on arbitrary byte strings) *)
 Definition xml_accepts (s : bytes) : bool := match xml_parse s with Some _ => true | None => false end.
@@ -631,8 +741,6 @@ Definition group_state (g : list test) (printed : bytes) (files : list (bytes * 
 (* (write_group / suite_ptree take the package as an argument and do not read j_pkg, j_names, j_files) *)
 
 (* statement level: the package after a list of outside calls, and what the createFileName calls among them answer *)
-Fixpoint ops_pkg (pkg : bytes) (ops : list op) : bytes :=
-  match ops with [] => pkg | OSetPkg p :: r => ops_pkg p r | OFileName _ :: r => ops_pkg pkg r end.
 Fixpoint ops_names (pkg : bytes) (ops : list op) : list bytes :=
   match ops with
   | [] => []
